@@ -135,22 +135,51 @@ def searches(repo, run, fn, idx):
 
 
 def dense_branch(repo, run, fn, idx):
+    from ..sym import path_condition, equivalent
     rid = run.rule("C19.4", "a time lookup returns the dense solution at that time exactly when dense output is kept", floor=1)
-    br = None
-    for st in ast.walk(fn):
-        if isinstance(st, ast.If) and "self.__dense_output" in src(st.test) and any(isinstance(x, ast.Return) for x in st.body):
-            br = st
-    ok = False
-    if br is not None:
-        for r in [x for x in br.body if isinstance(x, ast.Return) and isinstance(x.value, ast.Call)]:
-            kw = {k.arg: src(k.value) for k in r.value.keywords}
-            if kw.get("t") == idx and kw.get("y") in ("self.sol(%s)" % idx, "self.__sol(%s)" % idx):
-                ok = True
-        neg = any(isinstance(n, ast.UnaryOp) and isinstance(n.op, ast.Not) and "dense_output" in src(n) for n in ast.walk(br.test))
-        ok = ok and not neg
-    run.judged(rid, "dense branch: %s" % (src(br.test) if br is not None else None), ok=ok)
+    rets = []
+    for r in [x for x in ast.walk(fn) if isinstance(x, ast.Return) and isinstance(x.value, ast.Call) and dotted(x.value.func) == "StateTuple"]:
+        kw = {k.arg: src(k.value) for k in r.value.keywords}
+        if kw.get("y") in ("self.sol(%s)" % idx, "self.__sol(%s)" % idx):
+            rets.append((r, kw))
+    ok = len(rets) == 1 and rets[0][1].get("t") == idx
+    cex = None
+    if ok:
+        tree, bt = path_condition(rets[0][0], fn)
+        # among the atoms of the path, those about dense output: the branch must be taken iff dense output is kept (and sol exists)
+        atoms = [a for a in __import__("sa.sym", fromlist=["tree_atoms"]).tree_atoms(tree)]
+        dense = [a for a in atoms if "__dense_output" in a]
+        solnone = [a for a in atoms if a.startswith("None Is self.sol") or a.startswith("self.sol Is None")]
+        other = [a for a in atoms if a not in dense + solnone]
+
+        def expected(asg):
+            return all(asg[a] for a in dense) and not any(asg[a] for a in solnone)
+
+        def constraint(asg):
+            # atoms that select the 'time lookup' branch (not int, not slice) are fixed to the values that reach this return
+            return True
+        ok = bool(dense)
+        if ok:
+            # project: for every assignment of the dense/sol atoms there must be SOME assignment of the other atoms (the branch selectors)
+            # under which the path is taken iff expected
+            import itertools
+            for vals in itertools.product((False, True), repeat=len(dense + solnone)):
+                base = dict(zip(dense + solnone, vals))
+                reach = False
+                for ov in itertools.product((False, True), repeat=len(other)):
+                    asg = dict(base)
+                    asg.update(dict(zip(other, ov)))
+                    from ..sym import eval_bool
+                    strip = lambda t: ("atom", t[1]) if t[0] == "atom" else (t if t[0] == "const" else (t[0], [strip(x) for x in t[1]]))
+                    if eval_bool(tree, asg):
+                        reach = True
+                if reach != expected(base):
+                    ok = False
+                    cex = base
+    run.judged(rid, "dense lookup return reached iff dense output kept", ok=ok)
     if not ok:
-        run.report("C19.4", DS, br or fn, "with dense output kept a time lookup does not return (t, sol(t))", text="dense lookup branch")
+        run.report("C19.4", DS, rets[0][0] if rets else fn, "with dense output kept a time lookup does not return (t, sol(t)) (or it does so when dense output is off)%s" % (
+            "; e.g. with %s" % cex if cex else ""), text="dense lookup branch")
 
 
 def length(repo, run):
